@@ -134,6 +134,12 @@ fn explain_by_repair(e: &SyntaxError, text: &str, class: DocClass, crate_tree: &
             }
         }
     }
+    if split_explains(text, class, crate_tree, 2) { "lenient_keyword_prefix" } else { "lenient_other" }
+}
+
+/// Does splitting a keyword off the front of some name (up to `depth` times: `falsetrue5` is
+/// `false true 5` for the crate) turn the text into one R2 accepts with the crate's tree?
+fn split_explains(text: &str, class: DocClass, crate_tree: &Document, depth: u32) -> bool {
     // every maximal run of name characters in the text (the text may not even lex)
     let chars: Vec<char> = text.chars().collect();
     let mut runs: Vec<(usize, String)> = vec![];
@@ -157,22 +163,33 @@ fn explain_by_repair(e: &SyntaxError, text: &str, class: DocClass, crate_tree: &
                 let mut repaired: String = chars[..cut].iter().collect();
                 repaired.push(' ');
                 repaired.extend(chars[cut..].iter());
-                if let R2Verdict::Accept(p) = r2_verdict(&repaired, class, &Options { allow_control_chars: true }) {
-                    if crate_shape(&p.doc) == *crate_tree {
-                        return "lenient_keyword_prefix";
-                    }
-                    // another defect may blur the tree; then it is enough that the crate itself reads
-                    // the glued and the split text as the same document
-                    if let CrateResult::Ok(cd2) = crate_parse(&repaired, class) {
-                        if cd2.to_r2() == *crate_tree {
-                            return "lenient_keyword_prefix";
+                match r2_verdict(&repaired, class, &Options { allow_control_chars: true }) {
+                    R2Verdict::Accept(p) => {
+                        if crate_shape(&p.doc) == *crate_tree {
+                            return true;
+                        }
+                        // another defect may blur the tree; then it is enough that the crate itself
+                        // reads the glued and the split text as the same document
+                        if let CrateResult::Ok(cd2) = crate_parse(&repaired, class) {
+                            if cd2.to_r2() == *crate_tree {
+                                return true;
+                            }
                         }
                     }
+                    _ if depth > 1 && n.len() <= 40 => {
+                        // only keep splitting inside the same run: the crate must still agree
+                        if let CrateResult::Ok(cd2) = crate_parse(&repaired, class) {
+                            if cd2.to_r2() == *crate_tree && split_explains(&repaired, class, crate_tree, depth - 1) {
+                                return true;
+                            }
+                        }
+                    }
+                    _ => {}
                 }
             }
         }
     }
-    "lenient_other"
+    false
 }
 
 /// Compare the crate with R2 on one text.
